@@ -171,7 +171,7 @@ def check_c12(case, stats):
 
 
 CHECKS = {'check_c12': check_c12}
-_B = {'quick': 50, 'thorough': 400}
+_B = {'quick': 50, 'thorough': 800}
 
 
 def shards(tier):
